@@ -647,8 +647,9 @@ class MQTTBaseProtocol(Protocol):
         Handles PINGRESP packet from the server
         '''
         log.debug("<== {packet:7}", packet="PINGRESP")
-        self._pingReq.alarm.cancel()
-        self._pingReq.alarm = None
+        if self._pingReq.alarm:
+            self._pingReq.alarm.cancel()
+            self._pingReq.alarm = None
 
 
     # ---------------------------
